@@ -63,6 +63,11 @@ CLAIMS = {
             "Full proof on the model: for every position, window and fuel on which both finish, qsearch returns the exact capture-tree value inside "
             "the window, an upper bound at or below alpha, a lower bound at or above beta; full window exact; ordering is a permutation.",
             "DESIGN.md section 6 C19", "modulo fuel; eval/legal_captures/makemove of the model are tied to the code by C17/C08/C02 runs"),
+    "C20": ("proof", "Coq proof over exact rationals that features and scores lie in [0,1] under the consistency invariant + the real style.py run on generated games",
+            "PARTIAL proof. Proved: under SInv (the tool's is_valid conditions plus histogram sums, threats <= moves, the early-pawn-push bound) no "
+            "feature divides by zero and the three scores lie in [0,1]. Measured, not proved: that analyse_game establishes SInv (premises evaluated "
+            "exactly on the statistics of every generated game set); floats are modelled as rationals (agreement to 1e-9); python-chess is replaced "
+            "by tools/chess_stub.", "DESIGN.md section 6 C20", "tools/chess_stub is trusted"),
 }
 
 NOT_YET = {}
